@@ -1199,6 +1199,16 @@ class Function(Ring):
         return out
 
     @classmethod
+    def minimum(cls, lhs, rhs):
+        # (without these the generic dispatcher fell through to numpy.minimum, which compares the
+        # nodes as opaque objects and returns one whole operand)
+        return Function.pushforward(algopy.minimum, [cls.totype(lhs), cls.totype(rhs)])
+
+    @classmethod
+    def maximum(cls, lhs, rhs):
+        return Function.pushforward(algopy.maximum, [cls.totype(lhs), cls.totype(rhs)])
+
+    @classmethod
     def outer(cls, lhs,rhs):
         lhs = cls.totype(lhs)
         rhs = cls.totype(rhs)
